@@ -16,6 +16,8 @@
 import GV.Model.Dce
 import GV.Spec.Dce
 import GV.Proofs.Dce
+import GV.Model.DceNames
+import GV.Proofs.DceNames
 
 namespace GV.Props.C05
 open GV.Dce GV.Spec.Dce
@@ -249,5 +251,93 @@ example (pick : Pick) : exAn ∉ select pick [exMain, exAm, exAn] := by
     have hmem := select_subset pick _ d hd
     simp only [List.mem_cons, List.mem_nil_iff, or_false] at hmem
     rcases hmem with h | h | h <;> subst h <;> decide
+
+/-! ### filter names (GV.Model.DceNames: the grammar of filters.go over type terms, at token level)
+
+DCE matches dependencies with declarations by comparing name strings.  On the term language of
+GV.Model.DceNames (basic, named-with-nest-and-type-arguments, pointer, slice, array, chan, map, func with
+variadic parameters and 0/1/many results) two names are equal ONLY IF the terms are equal; the identifications
+that filters.go makes on purpose are exactly the information that is absent from the terms:
+channel direction, parameter names, the receiver of a method filter, type-parameter names, struct tags
+(`method_filter_eq_iff` states the receiver / parameter-name case).  Not modelled: struct, interface and union
+types, the `[...]` recursion marker; atoms are taken as indivisible (see the header of GV.Model.DceNames). -/
+
+section FilterNames
+open GV.DceNames
+
+/-- Two types are rendered to the same filter text only if they are the same type term. -/
+theorem filter_names_injective (t₁ t₂ : Ty) (h : t₁.render = t₂.render) : t₁ = t₂ :=
+  (ty_prefix t₁ t₂ [] [] (by simpa using h) follow_nil follow_nil).1
+
+/-- Object filters (`pkg.Name[nest; args]`): equal only for the same object, the same nest arguments and the same
+type arguments — an instance is never confused with another instance or with the generic (dropping or
+reordering type arguments changes the name). -/
+theorem object_filter_injective (p₁ n₁ p₂ n₂ : String) (ne₁ a₁ ne₂ a₂ : TyList)
+    (h : objectFilter p₁ n₁ ne₁ a₁ = objectFilter p₂ n₂ ne₂ a₂) : p₁ = p₂ ∧ n₁ = n₂ ∧ ne₁ = ne₂ ∧ a₁ = a₂ := by
+  have := filter_names_injective _ _ h
+  simpa using this
+
+/-- Method filters (`pkg.name(params) results`): equal only for the same package, method name, parameter types
+(incl. variadic marker) and result types. -/
+theorem method_filter_injective (p₁ n₁ p₂ n₂ : String) (ps₁ rs₁ ps₂ rs₂ : TyList)
+    (h : methodFilter p₁ n₁ ps₁ rs₁ = methodFilter p₂ n₂ ps₂ rs₂) : p₁ = p₂ ∧ n₁ = n₂ ∧ ps₁ = ps₂ ∧ rs₁ = rs₂ := by
+  unfold methodFilter at h
+  rw [render_func, render_func] at h
+  simp only [List.tail_cons, List.cons.injEq, Tok.obj.injEq] at h
+  obtain ⟨⟨hp, hn⟩, h⟩ := h
+  have hf : (Ty.func ps₁ rs₁).render = (Ty.func ps₂ rs₂).render := by
+    rw [render_func, render_func, h.2]
+  have := filter_names_injective _ _ hf
+  simp only [Ty.func.injEq] at this
+  exact ⟨hp, hn, this.1, this.2⟩
+
+/-- An object filter is never a method filter (a method filter continues with "(", an object filter ends or
+continues with "["): a type or function cannot be kept alive by a method signature or vice versa. -/
+theorem object_filter_ne_method_filter (p₁ n₁ p₂ n₂ : String) (ne a ps rs : TyList) :
+    objectFilter p₁ n₁ ne a ≠ methodFilter p₂ n₂ ps rs := by
+  unfold objectFilter methodFilter
+  rw [render_named, render_func]
+  simp only [List.tail_cons, ne_eq, List.cons.injEq, not_and]
+  intro _
+  unfold bracket
+  split <;> simp
+
+/-- what the compiler knows about an unexported method when it names it -/
+structure GoMethod where
+  recvPkg : String
+  recvName : String
+  recvArgs : TyList
+  pkg : String
+  name : String
+  paramNames : List String
+  params : TyList
+  results : TyList
+
+/-- filters.go:60-79: the method filter uses package, name and signature types only -/
+def GoMethod.filter (m : GoMethod) : List Tok := methodFilter m.pkg m.name m.params m.results
+
+/-- The documented identification, stated exactly: two unexported methods share a method filter iff they agree
+on package, name, parameter types and result types — whatever their receivers and parameter names are
+(README: "we don't look at the receiver for an unexported method"). -/
+theorem method_filter_eq_iff (m₁ m₂ : GoMethod) :
+    m₁.filter = m₂.filter ↔ m₁.pkg = m₂.pkg ∧ m₁.name = m₂.name ∧ m₁.params = m₂.params ∧ m₁.results = m₂.results := by
+  constructor
+  · exact method_filter_injective _ _ _ _ _ _ _ _
+  · rintro ⟨h1, h2, h3, h4⟩
+    simp [GoMethod.filter, h1, h2, h3, h4]
+
+/-- instance: `Box[int]` and `Box[string]`, `m(int) int` and `m(...int) int` get different names -/
+example : objectFilter "p" "Box" .nil (.cons (.basic "int") .nil) ≠ objectFilter "p" "Box" .nil (.cons (.basic "string") .nil) := by
+  intro h
+  have := object_filter_injective _ _ _ _ _ _ _ _ h
+  simp at this
+
+example : methodFilter "p" "m" (.cons (.basic "int") .nil) (.cons (.basic "int") .nil) ≠
+    methodFilter "p" "m" (.variadic (.basic "int")) (.cons (.basic "int") .nil) := by
+  intro h
+  have := method_filter_injective _ _ _ _ _ _ _ _ h
+  simp at this
+
+end FilterNames
 
 end GV.Props.C05
